@@ -4,7 +4,7 @@ PID = "C01"
 
 
 def run(tier, seed):
-    return exec_common.run_exec(PID, tier, seed, 1, scns=("exec", "replace"), pre=exec_common.sched_stop_model)
+    return exec_common.run_exec(PID, tier, seed, 1, scns=("exec", "replace", "stacked"), pre=exec_common.sched_stop_model)
 
 
 def replay(path):
